@@ -25,7 +25,10 @@ Record code_cfg12 := {
   sc_band_halved : bool;
   sc_abstain_not_positive : bool;    (* isAbstainVote := !rate.IsPositive() *)
   sc_update_gate : list string;      (* EndBlocker: gates on the path to UpdateExchangeRates *)
-  sc_slash_gate : list string        (* … to SlashAndResetMissCounters: only the slash-window gate *)
+  sc_slash_gate : list string;       (* … to SlashAndResetMissCounters: only the slash-window gate *)
+  sc_endblock_order : list string;   (* EndBlocker: UpdateExchangeRates, then SlashAndResetMissCounters *)
+  sc_update_order : list string;     (* UpdateExchangeRates: Tally, incrementMissCounters, rewardWinners, clearVotesAndPrevotes *)
+  sc_update_guards : nat             (* non-error path conditions on the last three of them *)
 }.
 
 Definition structural_ok12 (c : code_cfg12) : bool :=
@@ -36,7 +39,10 @@ Definition structural_ok12 (c : code_cfg12) : bool :=
   sc_share_normalised c && sc_share_truncated c &&
   sc_tally_lower c && (match sc_tally_upper c with TallyNoAdd => true | _ => false end) &&
   sc_band_halved c && sc_abstain_not_positive c &&
-  strs_eqb (sc_update_gate c) ["+VotePeriod"%string] && strs_eqb (sc_slash_gate c) ["+SlashWindow"%string].
+  strs_eqb (sc_update_gate c) ["+VotePeriod"%string] && strs_eqb (sc_slash_gate c) ["+SlashWindow"%string] &&
+  strs_eqb (sc_endblock_order c) ["UpdateExchangeRates"%string; "SlashAndResetMissCounters"%string] &&
+  strs_eqb (sc_update_order c) ["Tally"%string; "incrementMissCounters"%string; "rewardWinners"%string; "clearVotesAndPrevotes"%string] &&
+  Nat.eqb (sc_update_guards c) 0.
 
 (** the model variant denoted by the configuration: the flag of [step] (nil check present or not) *)
 Definition variant12 (c : code_cfg12) : option bool :=
